@@ -203,7 +203,10 @@ def evalBody (isBytes : Bool) (q : Nat) (tripleQ : Bool) : Nat â†’ Str â†’ Str â
                   match r2 with
                   | c3 :: r3 =>
                     match octVal? c3 with
-                    | some d3 => evalBody isBytes q tripleQ fuel ((d1 * 64 + d2 * 8 + d3) :: acc) r3
+                    | some d3 =>
+                      -- a bytes literal keeps the low eight bits of `\400` â€¦ `\777` (CPython warns and truncates)
+                      let v := d1 * 64 + d2 * 8 + d3
+                      evalBody isBytes q tripleQ fuel ((if isBytes then v % 256 else v) :: acc) r3
                     | none => evalBody isBytes q tripleQ fuel ((d1 * 8 + d2) :: acc) r2
                   | [] => evalBody isBytes q tripleQ fuel ((d1 * 8 + d2) :: acc) r2
                 | none => evalBody isBytes q tripleQ fuel (d1 :: acc) rest'
